@@ -14,6 +14,7 @@ import (
 	"strconv"
 	"strings"
 	"sync"
+	"sync/atomic"
 	"time"
 	"unicode/utf8"
 
@@ -28,6 +29,13 @@ import (
 )
 
 const waitLong = 30 * time.Second
+
+// stalled is set when the code under test did not react within waitLong; the case is still written (the monitor
+// judges it) but no further cases are generated, so that a hanging implementation costs one timeout, not hundreds.
+var stalled int32
+
+func stall() { atomic.StoreInt32(&stalled, 1) }
+func isStalled() bool { return atomic.LoadInt32(&stalled) != 0 }
 
 var logger = watermill.NopLogger{}
 
@@ -70,6 +78,7 @@ type recPub struct {
 	fail     bool
 	consumed *message.Message
 	closed   int
+	byUUID   map[string]uuidScript
 }
 
 func snap(m *message.Message, consumed *message.Message) msgSnap {
@@ -84,19 +93,54 @@ func (p *recPub) Publish(topic string, msgs ...*message.Message) error {
 	p.mu.Lock()
 	defer p.mu.Unlock()
 	c := pubCall{topic: topic}
+	fail := p.fail
 	for _, m := range msgs {
-		c.msgs = append(c.msgs, snap(m, p.consumed))
+		consumed := p.consumed
+		if sc, ok := p.byUUID[m.UUID]; ok { // burst mode: the script is found through the (unique) uuid
+			consumed = sc.consumed
+			fail = fail || sc.fail
+		}
+		c.msgs = append(c.msgs, snap(m, consumed))
 	}
 	p.calls = append(p.calls, c)
-	if p.fail {
+	if fail {
 		return errors.New("destination down")
 	}
 	return nil
 }
+
+type uuidScript struct {
+	consumed *message.Message
+	fail     bool
+}
+
+// burst switches the publisher to per-uuid scripts (messages handled concurrently).
+func (p *recPub) burst(scripts map[string]uuidScript) {
+	p.mu.Lock()
+	p.calls, p.fail, p.consumed, p.byUUID = nil, false, nil, scripts
+	p.mu.Unlock()
+}
+
+// callsFor returns the calls that carried a message with this uuid.
+func (p *recPub) callsFor(uuid string) []pubCall {
+	p.mu.Lock()
+	defer p.mu.Unlock()
+	var out []pubCall
+	for _, c := range p.calls {
+		for _, m := range c.msgs {
+			if m.uuid == uuid {
+				out = append(out, c)
+				break
+			}
+		}
+	}
+	return out
+}
+
 func (p *recPub) Close() error { p.mu.Lock(); p.closed++; p.mu.Unlock(); return nil }
 func (p *recPub) reset(consumed *message.Message, fail bool) {
 	p.mu.Lock()
-	p.calls, p.fail, p.consumed = nil, fail, consumed
+	p.calls, p.fail, p.consumed, p.byUUID = nil, fail, consumed, nil
 	p.mu.Unlock()
 }
 func (p *recPub) take() []pubCall {
@@ -158,6 +202,7 @@ func feed(ch chan *message.Message, m *message.Message) string {
 	select {
 	case ch <- m:
 	case <-time.After(waitLong):
+		stall()
 		return "notaken"
 	}
 	select {
@@ -166,8 +211,24 @@ func feed(ch chan *message.Message, m *message.Message) string {
 	case <-m.Nacked():
 		return "nack"
 	case <-time.After(waitLong):
+		stall()
 		return "timeout"
 	}
+}
+
+// feedAll sends all messages concurrently (the component handles them concurrently) and returns their settlements.
+func feedAll(chs []chan *message.Message, ms []*message.Message) []string {
+	out := make([]string, len(ms))
+	var wg sync.WaitGroup
+	for i := range ms {
+		wg.Add(1)
+		go func(i int) {
+			defer wg.Done()
+			out[i] = feed(chs[i], ms[i])
+		}(i)
+	}
+	wg.Wait()
+	return out
 }
 
 // ---------------------------------------------------------------- rendering
@@ -307,6 +368,25 @@ func atoiCases(out *wh.Out, rng *wh.Rng, n int) {
 		out.Case("atoi "+wh.HexS(s), o)
 		out.Count("atoi")
 	}
+	// utf8.ValidString against the model's validator (the scope predicate of the Forwarder clauses)
+	u8 := []string{"", "a", "\x7f", "\x80", "\xc2\x80", "\xc1\xbf", "\xc0\x80", "\xe0\xa0\x80", "\xe0\x9f\xbf", "\xed\x9f\xbf", "\xed\xa0\x80",
+		"\xee\x80\x80", "\xef\xbf\xbd", "\xf0\x90\x80\x80", "\xf0\x8f\xbf\xbf", "\xf4\x8f\xbf\xbf", "\xf4\x90\x80\x80", "\xf5\x80\x80\x80",
+		"\xe2\x82", "\xe2\x82\xac", "a\xe2\x82\xacb", "\xf0\x9f\x98\x80", "\xf0\x9f\x98", "\xff", "ab\xffcd", "\xc2", "€uro", "世界", "\xe4\xb8"}
+	for i := 0; i < n; i++ {
+		if rng.Intn(2) == 0 {
+			u8 = append(u8, rndUtf8(rng, 6)+rndBytes(rng, 3))
+		} else {
+			b := make([]byte, 1+rng.Intn(5))
+			for j := range b {
+				b[j] = []byte{0x00, 0x41, 0x7f, 0x80, 0x8f, 0x90, 0x9f, 0xa0, 0xbf, 0xc0, 0xc1, 0xc2, 0xdf, 0xe0, 0xe1, 0xec, 0xed, 0xee, 0xef, 0xf0, 0xf1, 0xf3, 0xf4, 0xf5, 0xff}[rng.Intn(25)]
+			}
+			u8 = append(u8, string(b))
+		}
+	}
+	for _, x := range u8 {
+		out.Case("utf8 "+wh.HexS(x), bit(utf8.ValidString(x)))
+		out.Count("utf8")
+	}
 	vals := []int{0, 1, -1, 9, 10, 99, 100, -100, 9223372036854775807, -9223372036854775808, 1000000007}
 	for i := 0; i < n; i++ {
 		vals = append(vals, int(rng.Next()))
@@ -341,16 +421,15 @@ type rqEnv struct {
 	cancel context.CancelFunc
 	done   chan error
 	delay  bool
-	mu     sync.Mutex
-	cur    *rqCase
-	curMsg *message.Message
-	tgSame bool
+	mu      sync.Mutex
+	scripts map[*message.Message]*rqCase
+	tgOther bool
 }
 
 const rqDelay = 250 * time.Millisecond
 
 func newRq(delay, ownRouter bool) (*rqEnv, error) {
-	e := &rqEnv{sub: newChanSub(), pub: &recPub{}, done: make(chan error, 1), delay: delay}
+	e := &rqEnv{sub: newChanSub(), pub: &recPub{}, done: make(chan error, 1), delay: delay, scripts: map[*message.Message]*rqCase{}}
 	cfg := requeuer.Config{
 		Subscriber:     e.sub,
 		SubscribeTopic: "failed",
@@ -358,11 +437,15 @@ func newRq(delay, ownRouter bool) (*rqEnv, error) {
 		GeneratePublishTopic: func(p requeuer.GeneratePublishTopicParams) (string, error) {
 			e.mu.Lock()
 			defer e.mu.Unlock()
-			e.tgSame = p.Message == e.curMsg
-			if !e.cur.tgOK {
+			cur, ok := e.scripts[p.Message] // the params carry the consumed message object itself
+			if !ok {
+				e.tgOther = true
+				return "", errors.New("unknown message object")
+			}
+			if !cur.tgOK {
 				return "", errors.New("no route for this message")
 			}
-			return e.cur.topic, nil
+			return cur.topic, nil
 		},
 	}
 	if delay {
@@ -394,25 +477,55 @@ func (e *rqEnv) close() {
 	}
 }
 
-func (e *rqEnv) run(c *rqCase) string {
+func (c *rqCase) build() *message.Message {
 	m := c.msg.build()
 	if c.cancel {
 		ctx, cancel := context.WithCancel(context.Background())
 		cancel()
 		m.SetContext(ctx)
 	}
+	return m
+}
+
+func (e *rqEnv) run(c *rqCase) string {
+	m := c.build()
 	e.mu.Lock()
-	e.cur, e.curMsg, e.tgSame = c, m, true
+	e.scripts = map[*message.Message]*rqCase{m: c}
+	e.tgOther = false
 	e.mu.Unlock()
 	e.pub.reset(m, c.fail)
 	s := feed(e.sub.ch("failed"), m)
 	e.mu.Lock()
-	same := e.tgSame
+	other := e.tgOther
 	e.mu.Unlock()
-	if !same {
+	if other {
 		return "tg-other-message"
 	}
 	return renderPubs(e.pub.take(), true) + " A:" + wh.Meta(m.Metadata) + " S:" + s
+}
+
+// burst: all cases at once (unique uuids); observations per message in the sequential format.
+func (e *rqEnv) burst(cs []*rqCase) []string {
+	ms := make([]*message.Message, len(cs))
+	chs := make([]chan *message.Message, len(cs))
+	scripts := map[string]uuidScript{}
+	e.mu.Lock()
+	e.scripts = map[*message.Message]*rqCase{}
+	for i, c := range cs {
+		ms[i] = c.build()
+		chs[i] = e.sub.ch("failed")
+		e.scripts[ms[i]] = c
+		scripts[c.msg.uuid] = uuidScript{ms[i], c.fail}
+	}
+	e.tgOther = false
+	e.mu.Unlock()
+	e.pub.burst(scripts)
+	st := feedAll(chs, ms)
+	out := make([]string, len(cs))
+	for i, c := range cs {
+		out[i] = renderPubs(e.pub.callsFor(c.msg.uuid), true) + " A:" + wh.Meta(ms[i].Metadata) + " S:" + st[i]
+	}
+	return out
 }
 
 var priorCounters = []string{"", "0", "1", "7", "+5", " 5", "x", "-3", "-1", "007", "9223372036854775806", "9223372036854775808",
@@ -420,7 +533,7 @@ var priorCounters = []string{"", "0", "1", "7", "+5", " 5", "x", "-3", "-1", "00
 
 const maxIntStr = "9223372036854775807"
 
-func rqCases(out *wh.Out, rng *wh.Rng, nRandom int) {
+func rqCases(out *wh.Out, rng *wh.Rng, nRandom, nBursts int) {
 	for _, own := range []bool{false, true} {
 		env, err := newRq(false, own)
 		if err != nil {
@@ -456,6 +569,9 @@ func rqCases(out *wh.Out, rng *wh.Rng, nRandom int) {
 			cases = append(cases, c)
 		}
 		for _, c := range cases {
+			if isStalled() {
+				break
+			}
 			obs := env.run(c)
 			out.Case(c.req(), obs)
 			out.Count("rq")
@@ -481,13 +597,29 @@ func rqCases(out *wh.Out, rng *wh.Rng, nRandom int) {
 		// repeated requeue of the same message object: the counter counts up
 		c := &rqCase{tgOK: true, topic: "again", msg: rndMsg(rng, rndBytes)}
 		delete(c.msg.meta, "_watermill_requeuer_retries")
-		for i := 0; i < 12; i++ {
+		for i := 0; i < 12 && !isStalled(); i++ {
 			obs := env.run(c)
 			out.Case(c.req(), obs)
 			out.Count("rq.repeated")
 			// next round starts from what this round wrote
 			if j := strings.Index(obs, " A:"); j >= 0 {
 				c.msg.meta = parseMeta(obs[j+3 : strings.Index(obs, " S:")])
+			}
+		}
+		// concurrent bursts: many messages in flight at once, each with its own topic / outcome / counter
+		for b := 0; b < nBursts && !isStalled(); b++ {
+			var cs []*rqCase
+			for i, n := 0, 4+rng.Intn(12); i < n; i++ {
+				c := &rqCase{tgOK: rng.Intn(8) > 0, topic: "burst-" + rndBytes(rng, 4), msg: rndMsg(rng, rndBytes), fail: rng.Intn(3) == 0}
+				c.msg.uuid = "b" + strconv.Itoa(b) + "-" + strconv.Itoa(i) + "-" + rndBytes(rng, 4)
+				if rng.Intn(2) == 0 {
+					c.msg.meta["_watermill_requeuer_retries"] = strconv.Itoa(rng.Intn(50))
+				}
+				cs = append(cs, c)
+			}
+			for i, obs := range env.burst(cs) {
+				out.Case(cs[i].req(), obs)
+				out.Count("rq.burst")
 			}
 		}
 		env.close()
@@ -497,7 +629,7 @@ func rqCases(out *wh.Out, rng *wh.Rng, nRandom int) {
 	if err != nil {
 		fatal("requeuer setup", err)
 	}
-	for i := 0; i < 6; i++ {
+	for i := 0; i < 6 && !isStalled(); i++ {
 		c := &rqCase{delay: true, cancel: i%3 != 2, tgOK: true, topic: "later", msg: rndMsg(rng, rndBytes), fail: i == 5}
 		t0 := time.Now()
 		obs := env.run(c)
@@ -700,6 +832,9 @@ func fwdCases(out *wh.Out, rng *wh.Rng, rounds int) {
 		failEvery := 2 + rng.Intn(4)
 		for r := 0; r < rounds; r++ {
 			for _, class := range fwdClasses {
+				if isStalled() {
+					break
+				}
 				raw, d := rawEnvelope(class, rng)
 				n++
 				fail := n%failEvery == 0 // the destination fails on every k-th message
@@ -709,6 +844,52 @@ func fwdCases(out *wh.Out, rng *wh.Rng, rounds int) {
 				if fail {
 					out.Count("fwd.dest_fail")
 				}
+			}
+		}
+		// concurrent bursts: valid envelopes with unique embedded uuids plus invalid ones, all in flight at once
+		for b := 0; b < rounds && !isStalled(); b++ {
+			n := 6 + rng.Intn(10)
+			ms := make([]*message.Message, n)
+			chs := make([]chan *message.Message, n)
+			ds := make([]envDesc, n)
+			classes := make([]string, n)
+			fails := make([]bool, n)
+			scripts := map[string]uuidScript{}
+			for i := 0; i < n; i++ {
+				classes[i] = []string{"std", "std", "wrap", "extra", "garbage", "emptydest", "null"}[rng.Intn(7)]
+				raw, d := rawEnvelope(classes[i], rng)
+				if !d.bad && d.dest != "" {
+					// re-encode with a unique uuid so that the publisher can find this message's script
+					d.msg.uuid = "b" + strconv.Itoa(b) + "-" + strconv.Itoa(i) + "-" + d.msg.uuid
+					raw = []byte(stdJSON("destination_topic", d.dest, d.msg, ""))
+					classes[i] = "std"
+				}
+				ds[i], fails[i] = d, rng.Intn(3) == 0
+				ms[i] = message.NewMessage("consumed-"+strconv.Itoa(i), raw)
+				chs[i] = env.sub.ch(env.topic)
+				if !d.bad && d.dest != "" {
+					scripts[d.msg.uuid] = uuidScript{ms[i], fails[i]}
+				} else {
+					fails[i] = false
+				}
+			}
+			env.pub.burst(scripts)
+			st := feedAll(chs, ms)
+			for i := 0; i < n; i++ {
+				var calls []pubCall
+				if !ds[i].bad && ds[i].dest != "" {
+					calls = env.pub.callsFor(ds[i].msg.uuid)
+				}
+				out.Case("fwd "+bit(ack)+" "+ds[i].token()+" "+dest(fails[i])+" "+classes[i], renderPubs(calls, false)+" S:"+st[i])
+				out.Count("fwd.burst")
+			}
+			// nothing else may have been published (invalid envelopes never forwarded)
+			total := 0
+			for _, c := range env.pub.take() {
+				total += len(c.msgs)
+			}
+			if total != len(scripts) {
+				out.Case("fwd "+bit(ack)+" bad ok burst-total", "P"+strconv.Itoa(total-len(scripts)+0)+" S:nack")
 			}
 		}
 		env.close()
@@ -852,7 +1033,7 @@ func e2eCases(out *wh.Out, rng *wh.Rng, n int) {
 			case <-time.After(waitLong):
 				fatal("e2e", errors.New("forwarder did not start"))
 			}
-			for i := 0; i < n; i++ {
+			for i := 0; i < n && !isStalled(); i++ {
 				d := rndMsg(rng, rndUtf8)
 				topic := "dst-" + rndUtf8(rng, 5)
 				fail := transport == "s" && rng.Intn(3) == 0
@@ -882,6 +1063,7 @@ func e2eCases(out *wh.Out, rng *wh.Rng, n int) {
 						obs = "F:" + bit(perr != nil) + " " + renderPubs(dst.take(), false) + " S:ack"
 					case <-time.After(waitLong):
 						obs = "F:0 " + renderPubs(dst.take(), false) + " S:timeout"
+						stall()
 					}
 				}
 				out.Case("e2e "+transport+" "+wh.HexS(cfgTopic)+" "+bit(ack)+" "+wh.HexS(topic)+" "+d.fields()+" "+dest(fail), obs)
@@ -948,7 +1130,7 @@ func faninCases(out *wh.Out, rng *wh.Rng, perEnv int) {
 			fatal("fanin", errors.New("did not start"))
 		}
 		failFrom := rng.Intn(perEnv)
-		for i := 0; i < perEnv; i++ {
+		for i := 0; i < perEnv && !isStalled(); i++ {
 			idx := rng.Intn(nsrc)
 			d := rndMsg(rng, rndBytes)
 			fail := i >= failFrom && (i-failFrom)%3 != 2
@@ -959,6 +1141,30 @@ func faninCases(out *wh.Out, rng *wh.Rng, perEnv int) {
 			out.Count("fanin.sources" + strconv.Itoa(nsrc))
 			if fail {
 				out.Count("fanin.dest_fail")
+			}
+		}
+		for b := 0; b < 3 && !isStalled(); b++ {
+			n := 5 + rng.Intn(10)
+			ms := make([]*message.Message, n)
+			chs := make([]chan *message.Message, n)
+			ds := make([]msgDesc, n)
+			idxs := make([]int, n)
+			fails := make([]bool, n)
+			scripts := map[string]uuidScript{}
+			for i := 0; i < n; i++ {
+				ds[i] = rndMsg(rng, rndBytes)
+				ds[i].uuid = "b" + strconv.Itoa(b) + "-" + strconv.Itoa(i) + "-" + ds[i].uuid
+				idxs[i], fails[i] = rng.Intn(nsrc), rng.Intn(3) == 0
+				ms[i] = ds[i].build()
+				chs[i] = sub.ch(srcs[idxs[i]])
+				scripts[ds[i].uuid] = uuidScript{ms[i], fails[i]}
+			}
+			pub.burst(scripts)
+			st := feedAll(chs, ms)
+			for i := 0; i < n; i++ {
+				out.Case("fanin "+hexList(srcs)+" "+wh.HexS(target)+" "+strconv.Itoa(idxs[i])+" "+dest(fails[i])+" "+ds[i].fields(),
+					renderPubs(pub.callsFor(ds[i].uuid), true)+" S:"+st[i])
+				out.Count("fanin.burst")
 			}
 		}
 		_ = fi.Close()
@@ -1005,7 +1211,7 @@ func fanoutCases(out *wh.Out, rng *wh.Rng, perEnv int) {
 				rcvs = append(rcvs, rcv{t, ch})
 			}
 		}
-		for i := 0; i < perEnv; i++ {
+		for i := 0; i < perEnv && !isStalled(); i++ {
 			ti := rng.Intn(len(topics))
 			d := rndMsg(rng, rndBytes)
 			m := d.build()
@@ -1020,6 +1226,10 @@ func fanoutCases(out *wh.Out, rng *wh.Rng, perEnv int) {
 						c.Ack()
 					case <-time.After(waitLong):
 						ds = append(ds, "missing")
+						stall()
+					}
+					if isStalled() {
+						break
 					}
 				}
 			}
@@ -1078,6 +1288,8 @@ func replay(out *wh.Out, line string) {
 	case "itoa":
 		v, _ := strconv.Atoi(f[1])
 		out.Case(line, wh.HexS(strconv.Itoa(v)))
+	case "utf8":
+		out.Case(line, bit(utf8.ValidString(unhex(f[1]))))
 	case "rq":
 		c := &rqCase{delay: f[1] == "1", cancel: f[2] == "1", tgOK: strings.HasPrefix(f[3], "ok:"), fail: f[4] == "fail", msg: parseMsgFields(f[5:8])}
 		if c.tgOK {
@@ -1126,17 +1338,20 @@ func main() {
 	if a.Thorough() {
 		scale = 10
 	}
-	_ = utf8.ValidString
 	t0 := time.Now()
 	section := func(name string, f func()) {
+		if isStalled() {
+			out.Note("section " + name + " skipped: the implementation stalled earlier")
+			return
+		}
 		f()
 		out.Note(fmt.Sprintf("section %s done at %.1fs", name, time.Since(t0).Seconds()))
 	}
 	section("atoi", func() { atoiCases(out, rng, 200*scale) })
-	section("requeuer", func() { rqCases(out, rng, 60*scale) })
-	section("forwarder", func() { fwdCases(out, rng, 4*scale) })
-	section("publisher", func() { fpubCases(out, rng, 150*scale) })
-	section("e2e", func() { e2eCases(out, rng, 25*scale) })
-	section("fanin", func() { faninCases(out, rng, 40*scale) })
-	section("fanout", func() { fanoutCases(out, rng, 25*scale) })
+	section("requeuer", func() { rqCases(out, rng, 150*scale, 10*scale) })
+	section("forwarder", func() { fwdCases(out, rng, 10*scale) })
+	section("publisher", func() { fpubCases(out, rng, 300*scale) })
+	section("e2e", func() { e2eCases(out, rng, 50*scale) })
+	section("fanin", func() { faninCases(out, rng, 80*scale) })
+	section("fanout", func() { fanoutCases(out, rng, 40*scale) })
 }
